@@ -658,6 +658,76 @@ impl Described for Search {
     }
 }
 
+// ---- generics, needs_predicate, generic_param / where_predicate (modelled) ----
+
+src_text! { PAIR_SRC,
+#[derive(Deserr, Debug)]
+#[deserr(deny_unknown_fields)]
+pub struct Pair<T> {
+    pub left: T,
+    #[deserr(default)]
+    pub right: Option<T>,
+    #[deserr(needs_predicate)]
+    pub checked: Checked,
+}
+}
+impl<T: ToModel> ToModel for Pair<T> {
+    fn to_model(&self) -> M {
+        M::Struct {
+            name: "Pair".into(),
+            fields: vec![("left".into(), self.left.to_model()), ("right".into(), self.right.to_model()), ("checked".into(), self.checked.to_model())],
+        }
+    }
+}
+impl<T: Described> Described for Pair<T> {
+    fn ty() -> Ty {
+        let mut right = fld("right", "right", Ty::Option(Box::new(T::ty())));
+        right.default = Some(M::None);
+        Ty::Struct(Arc::new(StructTy {
+            name: "Pair".into(),
+            fields: vec![fld("left", "left", T::ty()), right, fld("checked", "checked", Checked::ty())],
+            deny: Deny::Default,
+            validate: None,
+        }))
+    }
+}
+
+src_text! { BOUNDED_SRC,
+#[derive(Deserr, Debug)]
+#[deserr(where_predicate = A: Deserr<__Deserr_E>, where_predicate = __Deserr_E: deserr::MergeWithError<ProbeErr>, rename_all = camelCase)]
+pub struct Bounded<A> {
+    pub first_item: A,
+    pub other_items: Vec<A>,
+    #[deserr(try_from(&String) = probe::try_ref_p::<9030, String> -> ProbeErr, default)]
+    pub note_text: probe::Tagged<String>,
+}
+}
+impl<A: ToModel> ToModel for Bounded<A> {
+    fn to_model(&self) -> M {
+        M::Struct {
+            name: "Bounded".into(),
+            fields: vec![
+                ("first_item".into(), self.first_item.to_model()),
+                ("other_items".into(), self.other_items.to_model()),
+                ("note_text".into(), self.note_text.to_model()),
+            ],
+        }
+    }
+}
+impl<A: Described> Described for Bounded<A> {
+    fn ty() -> Ty {
+        let mut note = fld("note_text", "noteText", Ty::Str);
+        note.conv = Conv::TryFrom(9030);
+        note.default = Some(M::Conv { via: 0, inner: Box::new(M::Str(String::new())) });
+        Ty::Struct(Arc::new(StructTy {
+            name: "Bounded".into(),
+            fields: vec![fld("first_item", "firstItem", A::ty()), fld("other_items", "otherItems", Ty::Vec(Box::new(A::ty()))), note],
+            deny: Deny::No,
+            validate: None,
+        }))
+    }
+}
+
 pub fn hand_entries() -> Vec<(Entry, bool)> {
     // (entry, modelled by the reference interpreter)
     vec![
@@ -679,6 +749,18 @@ pub fn hand_entries() -> Vec<(Entry, bool)> {
         (Entry::generic::<Option<Camel>>("Option<Camel>", "", "hand"), true),
         (Entry::generic::<(Strict, Vec<Camel>)>("(Strict, Vec<Camel>)", "", "hand"), true),
         (Entry::generic::<Vec<Search>>("Vec<Search>", "", "hand"), false),
+        (Entry::generic::<Pair<u8>>("Pair<u8>", PAIR_SRC, "hand"), true),
+        (Entry::generic::<Pair<Point>>("Pair<Point>", PAIR_SRC, "hand"), true),
+        (Entry::generic::<Vec<Pair<String>>>("Vec<Pair<String>>", PAIR_SRC, "hand"), true),
+        (Entry::generic::<Bounded<i128>>("Bounded<i128>", BOUNDED_SRC, "hand"), true),
+        (Entry::generic::<Bounded<Option<Color>>>("Bounded<Option<Color>>", BOUNDED_SRC, "hand"), true),
+        (Entry::generic::<Option<Option<Shape>>>("Option<Option<Shape>>", "", "hand"), true),
+        (Entry::generic::<BTreeMap<i32, BTreeMap<u8, NonZeroI128>>>("BTreeMap<i32, BTreeMap<u8, NonZeroI128>>", "", "std"), true),
+        (Entry::generic::<(usize, isize, u128)>("(usize, isize, u128)", "", "std"), true),
+        (Entry::generic::<[Option<NonZeroU64>; 5]>("[Option<NonZeroU64>; 5]", "", "std"), true),
+        (Entry::generic::<HashSet<NonZeroI16>>("HashSet<NonZeroI16>", "", "std"), true),
+        (Entry::generic::<Vec<f64>>("Vec<f64>", "", "std"), true),
+        (Entry::generic::<Box<Option<Box<Tree>>>>("Box<Option<Box<Tree>>>", "", "hand"), true),
     ]
 }
 
